@@ -4,6 +4,7 @@ from .. import tsg2c as X
 from ..runner import Job
 from ..contractfile import ContractFile
 from . import iotape, tables, rulelocal
+from .. import replay as RP
 
 def _rule_helpers(R):
     """RuleLocal::getEffectiveRule / getRule (inline, non-template) and getMaxNumParents<rule>."""
@@ -41,7 +42,12 @@ static TasmanianSparseGrid make(int variant){
     std::vector<double> p = g.getNeededPoints(), v((size_t) g.getNumNeeded() * outs);
     for (int i = 0; i < g.getNumNeeded(); i++){ v[outs*i] = std::exp(p[2*i] - 0.3 * p[2*i+1]); v[outs*i+1] = p[2*i] * p[2*i+1]; }
     g.loadNeededValues(v);
-    if (variant >= 2){
+    if (variant >= 6){      /* a pending update that raises the largest 1-D level */
+      if (fam == "Global") g.updateGlobalGrid(5, type_level);
+      else if (fam == "Sequence") g.updateSequenceGrid(5, type_level);
+      else if (fam == "Fourier") g.updateFourierGrid(3, type_level);
+      else g.setSurplusRefinement(1.E-4, refine_classic, -1);
+    }else if (variant >= 2){
       if (fam == "LocalPolynomial" || fam == "Wavelet") g.setSurplusRefinement(1.E-3, refine_classic, -1);
       else g.setAnisotropicRefinement(type_iptotal, 5, 0);
     }
@@ -64,12 +70,20 @@ static bool same(const TasmanianSparseGrid &a, const TasmanianSparseGrid &b, con
     }
     if (a.isSetConformalTransformASIN() != b.isSetConformalTransformASIN() || (a.isSetConformalTransformASIN() && a.getConformalTransformASIN() != b.getConformalTransformASIN()) || a.getLevelLimits() != b.getLevelLimits() || a.isUsingConstruction() != b.isUsingConstruction()) ok = false;
   }
+  if (ok && a.getNumOutputs() > 0 && a.getNumNeeded() > 0){   /* every subsequent operation behaves as on the original: load the pending points and evaluate */
+    TasmanianSparseGrid a2 = a, b2 = b;
+    std::vector<double> p = a2.getNeededPoints(), v((size_t) a2.getNumNeeded() * a2.getNumOutputs());
+    for (size_t i = 0; i < v.size(); i++) v[i] = std::cos(p[i % p.size()] + 0.1 * (double) i);
+    a2.loadNeededValues(v); b2.loadNeededValues(v);
+    std::vector<double> x = {-0.47, 0.12}, ya, yb; a2.evaluate(x, ya); b2.evaluate(x, yb);
+    if (ya != yb || a2.getPoints() != b2.getPoints()) ok = false;
+  }
   if (!ok) std::printf("   mismatch after %s\n", what);
   return ok;
 }
 int main_replay(){
   int bad = 0;
-  for (int variant = 0; variant < 6; variant++) for (int binary = 0; binary < 2; binary++){
+  for (int variant = 0; variant < 8; variant++) for (int binary = 0; binary < 2; binary++){
     try{
       TasmanianSparseGrid g = make(variant), r;
       std::stringstream ss; g.write(ss, binary != 0); std::string first = ss.str();
@@ -80,7 +94,7 @@ int main_replay(){
       if (!ok){ bad++; std::printf("%s grid variant %d (%s): round trip FAILED\n", fam.c_str(), variant, binary ? "binary" : "ascii"); }
     }catch(std::exception &e){ bad++; std::printf("%s grid variant %d (%s): exception %s\n", fam.c_str(), variant, binary ? "binary" : "ascii", e.what()); }
   }
-  std::printf("%d of 12 round trips failed\n", bad);
+  std::printf("%d of 16 round trips failed\n", bad);
   __CPROVER_assert(bad == 0, "C06 write() then read() restores the observable state and the bytes");
   return 0;
 }
@@ -90,6 +104,32 @@ def make_replay(prop, fam):
     def rp(job, ob, vals, wd):
         hdr = "Native search for a failing round trip of the real %s serializers.\nproperty %s job %s\nobligation %s: %s\nat %s" % (fam, prop, job.name, ob["name"], ob["description"], ob["location"])
         return RP.write_and_run(prop, job.name + "." + ob["name"], hdr, ['"TasmanianSparseGrid.hpp"'], REPLAY.replace("@FAM@", fam), "  main_replay();", lib="sg")
+    return rp
+
+REPLAY_STALE = r'''
+/* Through the public API of the real code: a grid updated to a SMALLER tensor set (nothing new is proposed), written and read back, must behave as the original. */
+int main_replay(){
+  int bad = 0;
+  for (int fam = 0; fam < 2; fam++) for (int binary = 0; binary < 2; binary++) {
+    TasGrid::TasmanianSparseGrid grid = fam == 0 ? TasGrid::makeGlobalGrid(2, 1, 4, TasGrid::type_level, TasGrid::rule_clenshawcurtis) : TasGrid::makeFourierGrid(2, 1, 3, TasGrid::type_level);
+    std::vector<double> p = grid.getPoints(); int n = grid.getNumPoints();
+    std::vector<double> v(n); for (int i = 0; i < n; i++) v[i] = std::sin(p[2*i]) + p[2*i+1];
+    grid.loadNeededValues(v);
+    if (fam == 0) grid.updateGlobalGrid(2, TasGrid::type_level); else grid.updateFourierGrid(1, TasGrid::type_level);
+    std::stringstream ss; grid.write(ss, binary != 0);
+    TasGrid::TasmanianSparseGrid r; r.read(ss, binary != 0);
+    double x[2] = {0.3, -0.4}, y1 = 0.0, y2 = 1.0;
+    grid.evaluate(x, &y1); r.evaluate(x, &y2);     /* the defect shows as a write through a null pointer here */
+    if (y1 != y2 || r.getNumNeeded() != grid.getNumNeeded()) { std::printf("%s %s: restored grid evaluates to %.17g, original %.17g\\n", fam ? "Fourier" : "Global", binary ? "binary" : "ascii", y2, y1); bad++; }
+  }
+  __CPROVER_assert(bad == 0, "C06 a grid updated to a smaller tensor set round-trips");
+  return 0;
+}
+'''
+def replay_stale(prop):
+    def rp(job, ob, vals, wd):
+        hdr = "Replay through the public API of the real code.\nproperty %s job %s\nobligation %s: %s\nat %s" % (prop, job.name, ob["name"], ob["description"], ob["location"])
+        return RP.write_and_run(prop, job.name + "." + ob["name"], hdr, ['"TasmanianSparseGrid.hpp"', '<cmath>', '<sstream>'], REPLAY_STALE, "  main_replay();", lib="sg", timeout=60)
     return rp
 
 def jobs(tier, seed, prop):
@@ -110,6 +150,16 @@ def jobs(tier, seed, prop):
                                     "well_formed_%s(g): size relations between members established by the builders (assumed representation invariant, see contracts/iotape.c)" % fam,
                                     "post-read recomputations are not modelled"],
                            label="Grid%s write<%s> / GridReaderVersion5 read round trip on the token tape" % (fam, mode)))
+    # the clause of well_formed that the Global / Fourier harnesses assume about a pending refinement is established by updateGrid
+    t2 = [t_ for k, a, t_ in cf.sections if k == "text2"][0]
+    for fam in (("Global", "Fourier") if prop != "C14" else ()):
+        Ru = X.Rules()
+        ut, uinfo = iotape.emit_update_invariant(Ru, fam)
+        out.append(Job("iotape.wellformed.update." + fam, '#include "tsg_shim.h"\nint tsg_exc;\n#define UPDATE updateGrid_%s\n#line 1 "/verif/contracts/iotape.c"\n' % fam + t2 + ut + cf.text(("harness",), ["h_update_invariant"]),
+                       "h_update_invariant", timeout=120, replay=replay_stale(prop), functions=["%s:%d %s" % (f["file"], f["line"], f["name"]) for f in uinfo["functions"]], info=uinfo,
+                       assumed=["selectTensors returns a non-empty set (any relation to the current tensors); clearRefinement / makeGrid leave no pending tensors; set difference and union as named",
+                                "setSurplusRefinement (Global with sequence rules) builds its pending set from the loaded points plus children: a superset by construction (not under this contract)"],
+                       label="Grid%s::updateGrid leaves updated_tensors empty or a superset of tensors (well_formed clause used by the round trip)" % fam))
     # top-level binary framing
     Rt = X.Rules()
     tt, tinfo = iotape.emit_top_binary(Rt)
